@@ -27,6 +27,12 @@ CHECKS = {
  "C08": ("exploration", "files with many object streams and object numbers redefined across containers are loaded under EVERY order in which the per-container blocks can reach the merge (hook H1, n! orders, exhaustive in that dimension), inside rayon pools of 1..16 threads repeatedly, and by the sequential build; all digests must agree. Files are sampled; intra-rayon interleavings are sampled by repetition",
          "trusted: hook H1 reorders only what thread completion could reorder; CANON digest; REF-W",
          "schedule enumeration through a merge-order hook plus repeated loads on thread pools, over proptest-generated files; differential against the sequential build"),
+ "C12": ("exploration", "generated page trees (spines up to the documented depth limit with random sub-trees, empty nodes, Kids behind references, shuffled numbering) compared with an own recursive depth-first traversal; malformed variants run in an isolated worker process and must terminate and yield only page objects",
+         "trusted: the harness's own DFS; the worker's process-level observations (exit status, panic hook, counting allocator, watchdog)",
+         "property-based testing (proptest) against a reference traversal; totality observed from an isolated worker process"),
+ "C13": ("exploration", "typed-chaos documents (plausible skeleton overwritten by random-kind values and cyclic/dangling references under every key the query code reads); every public read-only query is called for every object id inside an isolated worker with an 8 MiB stack, allocation limits and a watchdog; the oracle is totality",
+         "trusted: the worker's process-level observations; hang verdicts need confirmation alone with a 60 s budget",
+         "property-based testing (proptest) with a totality oracle observed from an isolated worker process"),
 }
 NA = {}
 def main():
